@@ -558,10 +558,47 @@ def value_checked(fn, call):
                 return False, "operand of a discarded expression"
             x = p
     if isinstance(u, tuple) and u[0] == "init":
-        return _var_checked(fn, u[1])
+        ok, how = _var_checked(fn, u[1])
+        return (ok and not _overwritten_unread(fn, call, u[1]), how if ok and not _overwritten_unread(fn, call, u[1]) else "stored in a variable that is overwritten before it is read on some path")
     if isinstance(u, tuple) and u[0] == "assign":
-        return _lhs_checked(fn, u[1])
+        ok, how = _lhs_checked(fn, u[1])
+        d = var_of(fn, u[1])
+        if ok and d is not None and _overwritten_unread(fn, call, d):
+            return False, "stored in a variable that is overwritten before it is read on some path"
+        return ok, how
     return False, str(u)
+
+
+def _overwritten_unread(fn, call, d):
+    """the value bound to plain local d by the statement containing `call` can be overwritten by another definition of d
+    before anything reads d (a lost result: `ok = f(); if (c) ok = g(); return ok;`)"""
+    cfg = fn.cfg
+    stmt = fn.stmt_of(call)
+    start = cfg.after(stmt) if cfg.pt(stmt) is not None and fn.nodes[stmt]["k"] != "DeclStmt" else None
+    if start is None:
+        # the binding element: the DeclStmt / assignment node itself
+        x = call
+        while x is not None and fn.nodes[x]["k"] not in ("DeclStmt",) and not (fn.nodes[x]["k"] == "BinaryOperator" and fn.nodes[x]["op"] == "="):
+            x = fn.parent.get(x)
+        if x is None or cfg.pt(x) is None:
+            return False
+        start = cfg.after(x)
+        stmt = x
+    redefs = [a for a, rhs, op in fn.var_defs(d) if op in ("=", "decl") and a != stmt and not any(y == stmt for y in fn.walk(a))]
+    if not redefs:
+        return False
+    reads = set()
+    for n in fn.nodes:
+        if n["k"] == "DeclRefExpr" and n.get("d") == d and fn.access(n["i"]) in ("read", "rw"):
+            reads.add(n["i"])
+    w = None
+    for a in redefs:
+        # a read that belongs to the redefinition itself (`ok = ok && g()`) counts
+        own = {x for x in fn.walk(a) if x in reads}
+        w = w or cfg.must_pass([start], [cfg.pt(a)], lambda e: e in reads and e not in own or e in own)
+        if w is not None:
+            return True
+    return False
 
 
 def _in_condition_or_return(fn, i):
